@@ -2,7 +2,8 @@
 (***************************************************************************)
 (* Trace validation for C04.  One log line = one document (as the driver   *)
 (* realised it) with the verdict of openapi3.T.Validate under each of   *)
-(* the 2^7 option sets.  TLC evaluates the judge DocRules!Viol on the      *)
+(* the option sequences (2^7 subsets + 40 with the reset options).  TLC   *)
+(* evaluates the judge DocRules!Viol on the                                *)
 (* recorded document and, per option set in scope, demands                 *)
 (*        Validate = nil   <=>   Accept(violations, options).              *)
 (* It also re-builds the document from the abstract case (path, leaf) and  *)
@@ -37,7 +38,7 @@ Wrong(line, Vs, i) == LET want == Accept(Vs, OptSetTab[i]) IN
 Report(line, c, is, Vs) ==
    LET i == CHOOSE j \in is : \A k \in is : j <= k IN
    [case |-> line.case, path |-> line.path, kind |-> line.kind, rule |-> line.rule, var |-> line.var,
-    at |-> PtrOf(PathOf(line)), doc |-> line.doc, class |-> c, optsets |-> is, opts |-> OptSetTab[i],
+    at |-> PtrOf(PathOf(line)), doc |-> line.doc, class |-> c, optsets |-> is, opts |-> OptSetTab[i], optseq |-> OptSeq(i),
     got |-> Got(line, i), want |-> IF Accept(Vs, OptSetTab[i]) THEN "A" ELSE "R",
     violations |-> {[rule |-> v.rule, kind |-> v.kind, at |-> v.at] : v \in Vs}, msg |-> line.msg]
 
